@@ -58,10 +58,21 @@ def textx_isinstance(obj: Any, obj_cls: type[Any]) -> bool:
         and obj_cls._tx_fqn == obj._tx_fqn
     ):
         return True
-    if hasattr(obj_cls, "_tx_inh_by"):
-        for cls in obj_cls._tx_inh_by:
-            if textx_isinstance(obj, cls):
-                return True
+    # Abstract rules may reference each other circularly
+    visited = {id(obj_cls)}
+    to_visit = list(getattr(obj_cls, "_tx_inh_by", []))
+    while to_visit:
+        cls = to_visit.pop(0)
+        if id(cls) in visited:
+            continue
+        visited.add(id(cls))
+        if isinstance(obj, cls) or (
+            hasattr(cls, "_tx_fqn")
+            and hasattr(obj, "_tx_fqn")
+            and cls._tx_fqn == obj._tx_fqn
+        ):
+            return True
+        to_visit.extend(getattr(cls, "_tx_inh_by", []))
     return False
 
 
